@@ -138,6 +138,7 @@ RotWitness(rs, sa, da, t0) ==
   [rs EXCEPT !.rot = [s \in rs.St |->
       LET r == rs.rot[s] IN
       IF s \notin rs.online \/ t0 < rs.since[s] THEN r
+      ELSE IF sa > 125 \/ da > 125 THEN r          \* not a pass between masters (the list of active stations ignores it as well)
       ELSE IF sa = s /\ da = s THEN [r EXCEPT !.claimed = TRUE]
       ELSE IF ~r.started THEN (IF da <= sa THEN [r EXCEPT !.started = TRUE, !.cur = {}] ELSE r)
       ELSE LET cur == r.cur \cup {sa} IN
@@ -324,7 +325,9 @@ OnPoll(rs, e) ==
       heardOk == (hwme /\ e.t <= rs.hw.t + 4 * cfg.tsl) => ~(rs.hw.to \in ToSet(e.pre.las) /\ rs.hw.to \notin ToSet(e.post.las))
       becomesReady == ~e.pre.ready /\ e.post.ready
       r == rs.rot[s]
-      claimable == e.t - Max2(rs.last.t1, rs.since[s]) >= Tto(cfg, s) - cfg.us
+      \* (a station measures silence from the poll in which it last saw the bus busy; with the sparse polls of the
+      \* single-station driver that can be up to two character times before the end of the last telegram)
+      claimable == e.t - Max2(rs.last.t1, rs.since[s]) >= Tto(cfg, s) - (IF cfg.mode = "single" THEN 22 * (cfg.tid \div 33) ELSE cfg.us)
       readyOk == becomesReady => (r.claimed \/ r.ok \/ claimable)
       cadOk == ~rs.cadBad
       rs1 == [rs EXCEPT !.pub[s] = e.post, !.pre[s] = e.pre, !.appsent[s] = FALSE,
